@@ -1,0 +1,383 @@
+//! Verification hooks. Compiled only with `--cfg actix_net_verif`; never part of a normal build.
+//!
+//! * an ordered event log (hook events from the accept thread and the workers, plus events a
+//!   harness adds itself, all under one mutex and one clock),
+//! * failpoints: named places between critical sections where a harness may inject a delay,
+//! * injection of accept errors,
+//! * thin probes that expose the real `Availability` and worker `Counter` types.
+
+#![allow(missing_docs, dead_code)]
+
+use std::{
+    collections::{HashMap, VecDeque},
+    io,
+    sync::{
+        atomic::{AtomicBool, AtomicU64, Ordering},
+        Mutex, OnceLock,
+    },
+    time::{Duration, Instant},
+};
+
+use crate::{
+    availability::Availability,
+    socket::MioStream,
+    waker_queue::{WakerInterest, WakerQueue},
+    worker::{Counter, WorkerCounter},
+};
+
+/// State of the accept loop right before it blocks in `poll`.
+#[derive(Clone, Debug, Default)]
+pub struct Snapshot {
+    pub paused: bool,
+    /// worker idx of every handle, in rotation order
+    pub handles: Vec<usize>,
+    pub next: usize,
+    /// availability bit of idx 0..16
+    pub avail: Vec<bool>,
+    /// (worker idx, raw counter total) per handle
+    pub counters: Vec<(usize, usize)>,
+    /// (token, back-off deadline pending) per listener
+    pub listeners: Vec<(usize, bool)>,
+    pub poll_timeout_ms: Option<u64>,
+}
+
+#[derive(Clone, Debug)]
+pub enum Ev {
+    LoopIdle(Snapshot),
+    /// popped from the waker queue: "worker_available" | "worker" | "pause" | "resume" | "stop"
+    Interest { kind: &'static str, idx: usize },
+    Accepted { token: usize, fd: i32 },
+    InjectedAcceptError { addr: String, kind: io::ErrorKind },
+    Dispatch { token: usize, fd: i32, worker: usize },
+    DispatchFailed { worker: usize, fd: i32 },
+    DroppedNoWorkers { token: usize, fd: i32 },
+    RegisterAttempt { token: usize },
+    DeregisterAttempt { token: usize },
+    AcceptOneOverrun { iterations: u64, handles: usize },
+    AcceptExit,
+    GuardDropBegin { worker: usize },
+    GuardDropEnd { worker: usize, notified: bool },
+    WorkerStopSeen { worker: usize, graceful: bool, in_flight: usize },
+    WorkerDrop { worker: usize },
+    ServiceRestart { worker: usize, token: usize },
+    ShutdownDrained { worker: usize },
+    /// appended by a harness
+    User { kind: &'static str, a: u64, b: u64, c: u64 },
+}
+
+#[derive(Clone, Debug)]
+pub struct Rec {
+    pub seq: u64,
+    pub thread: u64,
+    pub t_us: u64,
+    pub ev: Ev,
+}
+
+struct Log {
+    recs: Vec<Rec>,
+    t0: Instant,
+}
+
+static RECORDING: AtomicBool = AtomicBool::new(false);
+static LOG: OnceLock<Mutex<Log>> = OnceLock::new();
+
+fn log() -> &'static Mutex<Log> {
+    LOG.get_or_init(|| {
+        Mutex::new(Log {
+            recs: Vec::new(),
+            t0: Instant::now(),
+        })
+    })
+}
+
+fn thread_hash() -> u64 {
+    use std::hash::{Hash, Hasher};
+    let mut h = std::collections::hash_map::DefaultHasher::new();
+    std::thread::current().id().hash(&mut h);
+    h.finish()
+}
+
+/// Start (or restart) recording with an empty log.
+pub fn start_recording() {
+    let mut l = log().lock().unwrap_or_else(|e| e.into_inner());
+    l.recs.clear();
+    l.t0 = Instant::now();
+    RECORDING.store(true, Ordering::SeqCst);
+}
+
+pub fn stop_recording() {
+    RECORDING.store(false, Ordering::SeqCst);
+}
+
+/// Append an event. One relaxed load when nothing is recording.
+pub fn emit(ev: Ev) {
+    if !RECORDING.load(Ordering::Relaxed) {
+        return;
+    }
+    let mut l = log().lock().unwrap_or_else(|e| e.into_inner());
+    let seq = l.recs.len() as u64;
+    let t_us = l.t0.elapsed().as_micros() as u64;
+    l.recs.push(Rec {
+        seq,
+        thread: thread_hash(),
+        t_us,
+        ev,
+    });
+}
+
+pub fn log_len() -> usize {
+    log().lock().unwrap_or_else(|e| e.into_inner()).recs.len()
+}
+
+/// Copy of the log from position `from`.
+pub fn log_since(from: usize) -> Vec<Rec> {
+    let l = log().lock().unwrap_or_else(|e| e.into_inner());
+    l.recs[from.min(l.recs.len())..].to_vec()
+}
+
+/// Run `f` over the whole log under its lock.
+pub fn with_log<R>(f: impl FnOnce(&[Rec]) -> R) -> R {
+    let l = log().lock().unwrap_or_else(|e| e.into_inner());
+    f(&l.recs)
+}
+
+pub fn now_us() -> u64 {
+    log().lock().unwrap_or_else(|e| e.into_inner()).t0.elapsed().as_micros() as u64
+}
+
+pub(crate) fn fd_of(io: &MioStream) -> i32 {
+    use std::os::unix::io::AsRawFd;
+    match io {
+        MioStream::Tcp(s) => s.as_raw_fd(),
+        MioStream::Uds(s) => s.as_raw_fd(),
+    }
+}
+
+// ---------------------------------------------------------------- failpoints
+
+#[derive(Clone, Copy, Debug, Default)]
+pub struct Failpoint {
+    /// probability (per mille) that a hit sleeps
+    pub per_mille: u32,
+    pub min_us: u64,
+    pub max_us: u64,
+}
+
+struct FpState {
+    cfg: Failpoint,
+    hits: u64,
+    fired: u64,
+    rng: u64,
+}
+
+static FP_ARMED: AtomicBool = AtomicBool::new(false);
+static FPS: OnceLock<Mutex<HashMap<&'static str, FpState>>> = OnceLock::new();
+
+fn fps() -> &'static Mutex<HashMap<&'static str, FpState>> {
+    FPS.get_or_init(|| Mutex::new(HashMap::new()))
+}
+
+/// Configure failpoints (replaces the table). `seed` makes the delays reproducible per name.
+pub fn set_failpoints(cfg: &[(&'static str, Failpoint)], seed: u64) {
+    let mut t = fps().lock().unwrap_or_else(|e| e.into_inner());
+    t.clear();
+    for (i, (name, c)) in cfg.iter().enumerate() {
+        t.insert(
+            name,
+            FpState {
+                cfg: *c,
+                hits: 0,
+                fired: 0,
+                rng: seed ^ (0x9E37_79B9_7F4A_7C15u64.wrapping_mul(i as u64 + 1)) | 1,
+            },
+        );
+    }
+    FP_ARMED.store(!cfg.is_empty(), Ordering::SeqCst);
+}
+
+/// (name, hits, fired) per configured failpoint.
+pub fn failpoint_stats() -> Vec<(&'static str, u64, u64)> {
+    let t = fps().lock().unwrap_or_else(|e| e.into_inner());
+    t.iter().map(|(k, v)| (*k, v.hits, v.fired)).collect()
+}
+
+/// A place between two critical sections where the thread may be descheduled anyway.
+pub fn failpoint(name: &'static str) {
+    if !FP_ARMED.load(Ordering::Relaxed) {
+        return;
+    }
+    let sleep = {
+        let mut t = fps().lock().unwrap_or_else(|e| e.into_inner());
+        match t.get_mut(name) {
+            None => None,
+            Some(s) => {
+                s.hits += 1;
+                // xorshift
+                s.rng ^= s.rng << 13;
+                s.rng ^= s.rng >> 7;
+                s.rng ^= s.rng << 17;
+                if (s.rng % 1000) < s.cfg.per_mille as u64 {
+                    s.fired += 1;
+                    let span = s.cfg.max_us.saturating_sub(s.cfg.min_us) + 1;
+                    Some(s.cfg.min_us + (s.rng >> 11) % span)
+                } else {
+                    None
+                }
+            }
+        }
+    };
+    if let Some(us) = sleep {
+        std::thread::sleep(Duration::from_micros(us));
+    }
+}
+
+// ---------------------------------------------------------------- accept error injection
+
+static INJECT_ARMED: AtomicBool = AtomicBool::new(false);
+static INJECT: OnceLock<Mutex<HashMap<String, VecDeque<i32>>>> = OnceLock::new();
+
+/// Queue raw OS error numbers to be returned by the next `accept()` calls of the listener whose
+/// local address displays as `addr`.
+pub fn inject_accept_errors(addr: &str, errnos: &[i32]) {
+    let m = INJECT.get_or_init(|| Mutex::new(HashMap::new()));
+    let mut m = m.lock().unwrap_or_else(|e| e.into_inner());
+    m.entry(addr.to_string()).or_default().extend(errnos.iter().copied());
+    INJECT_ARMED.store(true, Ordering::SeqCst);
+}
+
+pub fn clear_injected_accept_errors() {
+    if let Some(m) = INJECT.get() {
+        m.lock().unwrap_or_else(|e| e.into_inner()).clear();
+    }
+    INJECT_ARMED.store(false, Ordering::SeqCst);
+}
+
+pub(crate) fn take_injected_accept_error(addr: impl FnOnce() -> String) -> Option<io::Error> {
+    if !INJECT_ARMED.load(Ordering::Relaxed) {
+        return None;
+    }
+    let addr = addr();
+    let errno = {
+        let m = INJECT.get()?;
+        let mut m = m.lock().unwrap_or_else(|e| e.into_inner());
+        m.get_mut(&addr)?.pop_front()?
+    };
+    let err = io::Error::from_raw_os_error(errno);
+    emit(Ev::InjectedAcceptError { addr, kind: err.kind() });
+    Some(err)
+}
+
+// ---------------------------------------------------------------- accept_one spin guard
+
+static ABORT_SPIN: AtomicBool = AtomicBool::new(false);
+static OVERRUNS: AtomicU64 = AtomicU64::new(0);
+
+/// Called once per iteration of `Accept::accept_one`'s loop. Emits `AcceptOneOverrun` when one call
+/// exceeds 4*handles+4 iterations (then every 2^20 iterations). Returns true if the harness asked
+/// the spinning call to give up (only ever set after an overrun was reported).
+pub(crate) fn accept_one_iteration(iterations: u64, handles: usize) -> bool {
+    let bound = 4 * handles as u64 + 4;
+    if iterations == bound || (iterations > bound && iterations % (1 << 20) == 0) {
+        OVERRUNS.fetch_add(1, Ordering::SeqCst);
+        emit(Ev::AcceptOneOverrun { iterations, handles });
+    }
+    iterations > bound && ABORT_SPIN.load(Ordering::Relaxed)
+}
+
+pub fn overruns() -> u64 {
+    OVERRUNS.load(Ordering::SeqCst)
+}
+
+pub fn set_abort_spin(on: bool) {
+    ABORT_SPIN.store(on, Ordering::SeqCst);
+}
+
+// ---------------------------------------------------------------- probes
+
+/// The real availability bitset.
+#[derive(Default)]
+pub struct AvailabilityProbe(Availability);
+
+impl AvailabilityProbe {
+    pub fn new() -> Self {
+        Self::default()
+    }
+    pub fn get(&self, idx: usize) -> bool {
+        self.0.get_available(idx)
+    }
+    pub fn set(&mut self, idx: usize, avail: bool) {
+        self.0.set_available(idx, avail)
+    }
+    pub fn available(&self) -> bool {
+        self.0.available()
+    }
+}
+
+/// The real worker counter: `inc` is what the accept thread calls after a dispatch, `dec` what a
+/// finished connection calls.
+#[derive(Clone)]
+pub struct CounterProbe(Counter);
+
+impl CounterProbe {
+    pub fn new(limit: usize) -> Self {
+        Self(Counter::new(limit))
+    }
+    /// false = the worker has reached its limit
+    pub fn inc(&self) -> bool {
+        self.0.inc()
+    }
+    /// true = the worker must notify the accept thread that it has capacity again
+    pub fn dec(&self) -> bool {
+        self.0.dec()
+    }
+    pub fn total(&self) -> usize {
+        self.0.total()
+    }
+}
+
+/// A real `WorkerCounter` (guards that notify through a real `WakerQueue`) without a worker.
+pub struct WorkerCounterProbe {
+    _poll: mio::Poll,
+    queue: WakerQueue,
+    counter: Counter,
+    worker: WorkerCounter,
+}
+
+pub struct GuardProbe(#[allow(dead_code)] crate::worker::WorkerCounterGuard);
+
+impl WorkerCounterProbe {
+    pub fn new(idx: usize, limit: usize) -> io::Result<Self> {
+        let poll = mio::Poll::new()?;
+        let queue = WakerQueue::new(poll.registry())?;
+        let counter = Counter::new(limit);
+        let worker = WorkerCounter::new(idx, queue.clone(), counter.clone());
+        Ok(Self {
+            _poll: poll,
+            queue,
+            counter,
+            worker,
+        })
+    }
+    /// accept side: record a dispatch; false = limit reached
+    pub fn inc(&self) -> bool {
+        self.counter.inc()
+    }
+    /// worker side: the guard that travels with a connection
+    pub fn guard(&self) -> GuardProbe {
+        GuardProbe(self.worker.guard())
+    }
+    pub fn total(&self) -> usize {
+        self.counter.total()
+    }
+    /// `WorkerAvailable(idx)` notifications pushed since the last call
+    pub fn drain_notifications(&self) -> Vec<usize> {
+        let mut g = self.queue.guard();
+        let mut out = Vec::new();
+        while let Some(i) = g.pop_front() {
+            if let WakerInterest::WorkerAvailable(idx) = i {
+                out.push(idx);
+            }
+        }
+        out
+    }
+}
